@@ -200,7 +200,13 @@ class SqlFluffColumn(Column):
         ]
         source_columns = [
             ColumnQualifierTuple(
-                src_col.raw_name, src_col.parent.raw_name if src_col.parent else None
+                src_col.raw_name,
+                # the table is not in the scope of the enclosing query: refer to it by its full name, schema included
+                (
+                    str(src_col.parent)
+                    if isinstance(src_col.parent, Table)
+                    else src_col.parent.raw_name if src_col.parent else None
+                ),
             )
             for src_col in src_cols
         ]
